@@ -150,6 +150,12 @@ def run_sync(peer, kind, base, maxrep, replies, env=None, use_fetch=False, allow
         if abandon_after is not None and len(out.yields) >= abandon_after:
             out.ending = "abandoned"      # the caller leaves the loop early (`break`); rows may stay buffered
             return out
+        # callers consume a walk in pieces (`itertools.islice`, a `for` left with `break` and resumed): each piece
+        # starts with iter(it), which must hand back the same walk at the same position
+        if len(out.yields) % 3 == 2:
+            ri = e2e.ncall(lambda: iter(itr))
+            if ri[0] == "ok":
+                itr = ri[1]
         r = e2e.ncall(lambda: next(itr))
         if r[0] == "exc":
             out.ending = "stop" if r[1] == "StopIteration" else r
